@@ -151,10 +151,22 @@ def simd():
                          "def sse2 : Prog := translation_of_the_current_source_failed\ndef avx2 : Prog := translation_of_the_current_source_failed\nend Urandom.Simd.Gen\n" % msg)
 
 
+def scalar():
+    """the scalar cores of the word generators, translated to Lean definitions (tools/extract_scalar.py)"""
+    import extract_scalar, extract_simd
+    try:
+        extract_scalar.generate(REPO, OUT, write_if_changed)
+    except (extract_simd.TranslateError, KeyError, IndexError, ValueError, StopIteration) as e:
+        msg = ("%s: %s" % (type(e).__name__, e)).replace("-/", "- /")
+        write_if_changed(os.path.join(OUT, "Scalar.lean"), "/- tools/extract_scalar.py could not translate the current source: %s -/\n"
+                         "namespace Urandom.Generated.Scalar\ndef translation_failed : Nat := translation_of_the_current_source_failed\nend Urandom.Generated.Scalar\n" % msg)
+
+
 def main():
     traits()
     sys.path.insert(0, os.path.dirname(os.path.abspath(__file__)))
     simd()
+    scalar()
     if os.path.exists(os.path.join(os.path.dirname(os.path.abspath(__file__)), "extract_zig.py")):
         import extract_zig
         extract_zig.tables(REPO, OUT, write_if_changed)
